@@ -116,6 +116,11 @@ class AdditionalNameWrapper(Object):
         # type: () -> loc_t
         return self.value.declared_at  # type: ignore[union-attr] # TODO
 
+    @property
+    def filename(self):
+        # type: () -> str | None
+        return getattr(self.value, 'filename', None)
+
     def attr_list(self, ctx):
         # type: (EvalCtx) -> AttrList
         if self.value:
